@@ -2,7 +2,7 @@
 import importlib
 
 ENGINE_OF = {
-    'C01': 'accum', 'C11': 'accum', 'C16': 'accum',
+    'C01': 'accum', 'C11': 'accum', 'C16': 'c16',
     'C02': 'pipeline', 'C08': 'pipeline', 'C14': 'pipeline',
     'C09': 'ttest', 'C20': 'sync',
 }
